@@ -58,6 +58,9 @@ Lemma D_eq {K} (O : ops K) e x :
     | Neg a => Neg (D O a x)
     | PowN a k => match k with 0 => Cst (o0 O) | S k' => Mul (Mul (Cst (ofnat O k)) (PowN a k')) (D O a x) end
     | Fn f a => Mul (dfn O f a) (D O a x)
+    | Fn2 g a b => if occurs x a then (if occurs x b then Add (Mul (dfn2 O g true a b) (D O a x)) (Mul (dfn2 O g false a b) (D O b x))
+                                      else Mul (dfn2 O g true a b) (D O a x))
+                   else Mul (dfn2 O g false a b) (D O b x)
     end else Cst (o0 O).
 Proof. destruct e; reflexivity. Qed.
 
@@ -84,6 +87,9 @@ Section Algebra.
   Lemma dfn_eval r f a : ev r (dfn O f a) = dfnI O f (ev r a).
   Proof. destruct f; reflexivity. Qed.
 
+  Lemma dfn2_eval r g first a b : ev r (dfn2 O g first a b) = dfn2I O g first (ev r a) (ev r b).
+  Proof. destruct g, first; reflexivity. Qed.
+
   Lemma not_occurs_dual r x e : occurs x e = false -> evD (seed O r x) e = (ev r e, o0 O).
   Proof.
     induction e; cbn [occurs eval]; intro H.
@@ -95,6 +101,7 @@ Section Algebra.
     - rewrite IHe by assumption. cbn. f_equal. ring.
     - rewrite IHe by assumption. rewrite kpow_dual. cbn [fst snd]. f_equal. destruct k; ring.
     - rewrite IHe by assumption. cbn. f_equal. ring.
+    - apply orb_false_iff in H as [H1 H2]. rewrite IHe1, IHe2 by assumption. cbn. f_equal. ring.
   Qed.
 
   (* Evaluating e over the dual numbers K[eps]/(eps^2) at the point r with tangent direction x gives the value of e and the
@@ -114,6 +121,10 @@ Section Algebra.
     - cbn [eval]. rewrite IHe. reflexivity.
     - cbn [eval]. rewrite IHe, kpow_dual. cbn [fst snd]. destruct k; reflexivity.
     - cbn [eval]. rewrite IHe. cbn [dual_ops ofn fst snd]. now rewrite dfn_eval.
+    - cbn [occurs] in Hocc. cbn [eval]. destruct (occurs x e1) eqn:H1; [destruct (occurs x e2) eqn:H2|].
+      + rewrite IHe1, IHe2. cbn [dual_ops ofn2 fst snd eval]. now rewrite !dfn2_eval.
+      + rewrite IHe1, (not_occurs_dual _ _ _ H2). cbn [dual_ops ofn2 fst snd eval]. rewrite dfn2_eval. f_equal. ring.
+      + cbn in Hocc. rewrite IHe2, (not_occurs_dual _ _ _ H1). cbn [dual_ops ofn2 fst snd eval]. rewrite dfn2_eval. f_equal. ring.
   Qed.
 
   Corollary D_value r x e : ev r (D O e x) = snd (evD (seed O r x) e).
@@ -482,4 +493,44 @@ Lemma w_ok_facts :
     Ok [[mkq (-3) 16; mkq 13 8; mkq 0 1]; [mkq 1 1; mkq 0 1; mkq 0 1]; [mkq 0 1; mkq 2 1; mkq (-3) 1]]
        [(4, [[mkq 0 1; mkq 0 1; mkq 0 1]; [mkq 0 1; mkq (-3) 2; mkq 0 1]; [mkq 0 1; mkq 0 1; mkq 0 1]]);
         (1000, [[mkq 0 1; mkq 0 1; mkq 0 1]; [mkq 0 1; mkq 0 1; mkq 0 1]; [mkq 1 2; mkq 0 1; mkq 0 1]])].
+Proof. repeat split; vm_compute; reflexivity. Qed.
+
+(* ---------------------------------------------------------------------------------------------- max / min: the tie convention *)
+Lemma Qc_sign_pos (w : Qc) : (0 < w)%Qc -> Qc_sign w = 1%Qc.
+Proof.
+  intro H. unfold Qc_sign. destruct (Qle_bool (this w) 0%Q) eqn:E; [|reflexivity].
+  apply Qle_bool_iff in E. exfalso. exact (Qlt_not_le _ _ H E).
+Qed.
+Lemma Qc_sign_neg (w : Qc) : (w < 0)%Qc -> Qc_sign w = (- (1))%Qc.
+Proof.
+  intro H. unfold Qc_sign.
+  assert (E1 : Qle_bool (this w) 0%Q = true) by (apply Qle_bool_iff, Qlt_le_weak; exact H).
+  rewrite E1. destruct (Qle_bool 0%Q (this w)) eqn:E2; [|reflexivity].
+  apply Qle_bool_iff in E2. exfalso. exact (Qlt_not_le _ _ H E2).
+Qed.
+(* the factor [a > b] the derivative of max/min uses, as a function of the difference d = a - b: 1 for d > 0, 0 for d < 0 and
+   1/2 at a tie (the symmetric sub-gradient; this is what the generated code computes: 0.5*sign(d) + 0.5 with sign(0) = 0) *)
+Theorem step_values (d : Qc) :
+  ((0 < d)%Qc -> stepI QcO d = 1%Qc) /\ (d = 0%Qc -> stepI QcO d = mkq 1 2) /\ ((d < 0)%Qc -> stepI QcO d = 0%Qc).
+Proof.
+  unfold stepI. cbn [QcO oadd omul ohalf ofn Qc_fn]. repeat split; intro H.
+  - rewrite (Qc_sign_pos d H). apply Qc_is_canon. reflexivity.
+  - subst d. apply Qc_is_canon. reflexivity.
+  - rewrite (Qc_sign_neg d H). apply Qc_is_canon. reflexivity.
+Qed.
+(* which difference each of the four rules looks at *)
+Theorem maxmin_rule_unfold (u v : Qc) :
+  dfn2I QcO FMax true u v = stepI QcO (u - v)%Qc /\ dfn2I QcO FMax false u v = stepI QcO (v - u)%Qc /\
+  dfn2I QcO FMin true u v = stepI QcO (v - u)%Qc /\ dfn2I QcO FMin false u v = stepI QcO (u - v)%Qc.
+Proof. repeat split; reflexivity. Qed.
+
+(* x' = -x + maxi(z, 1/8) * a, z' = x*z - mini(x, z)   (0 = x, 1 = z, 2 = a) at x = 1/2, z = 1/4, a = 3/2 and at the tie x = z = 1/4 *)
+Definition w_max : sys Qc :=
+  mksys [0; 1] [Add (Neg (V 0)) (Mul (Fn2 FMax (V 1) (cQ 1 8)) (V 2)); Sub (Mul (V 0) (V 1)) (Fn2 FMin (V 0) (V 1))] [].
+Lemma w_max_facts :
+  wf w_max = true /\
+  result_eqb (jac_impl QcO w_max (env [0; 1] [(0, mkq 1 2); (1, mkq 1 4); (2, mkq 3 2)] []))
+             (Ok [[mkq (-1) 1; mkq 3 2]; [mkq 1 4; mkq (-1) 2]] []) = true /\
+  result_eqb (jac_impl QcO w_max (env [0; 1] [(0, mkq 1 4); (1, mkq 1 4); (2, mkq 3 2)] []))
+             (Ok [[mkq (-1) 1; mkq 3 2]; [mkq (-1) 4; mkq (-1) 4]] []) = true.
 Proof. repeat split; vm_compute; reflexivity. Qed.
